@@ -90,7 +90,7 @@ func genC16(o *Out, rng *rand.Rand, tier string) {
 		emit("Reply", inner, map[string]any{}, guard(func() map[string]any { return res6(dhcpv6.NewReplyFromMessage(inner)) }), "builder")
 		emit("Request", inner, map[string]any{}, guard(func() map[string]any { return res6(dhcpv6.NewRequestFromAdvertise(inner)) }), "builder")
 		// ---- relay chains of depth 1..16
-		depth := pick(rng, 1, 2, 3, 8, 9, 10, 16, 1+rng.Intn(16))
+		depth := pick(rng, 1, 2, 3, 8, 9, 10, 16, 1+rng.Intn(16), 1+rng.Intn(16), 31, 32, 33, 34, 40, 48) // beyond every hop-count limit a relay could have in mind (RFC 8415: 8 by default, 32 at most); the JSON reader of the trace specification nests 255 levels at most, four per relay level
 		var cur dhcpv6.DHCPv6 = inner
 		for k := 0; k < depth; k++ {
 			link, peer := rip6(rng), rip6(rng)
@@ -173,7 +173,7 @@ func genC16(o *Out, rng *rand.Rand, tier string) {
 				return map[string]any{"ok": true, "v": proj6(m)}
 			}), "inner-after-edit")
 		}
-		idx := pick(rng, -1, 0, 1, depth-1, depth, depth+3, -2, rng.Intn(17))
+		idx := pick(rng, -1, 0, 1, depth-1, depth, depth+3, -2, rng.Intn(17), rng.Intn(depth+1))
 		emit("DecapIndex", chain, map[string]any{"i": idx}, guard(func() map[string]any { return res6(dhcpv6.DecapsulateRelayIndex(chain, idx)) }), "decap")
 		reply := innerMsg6(rng)
 		if rc, ok := chain.(*dhcpv6.RelayMessage); ok {
